@@ -308,13 +308,15 @@ def run_item(ctx, item):
     elif kind == "match":
         # export of an alignment to a match file: the alignment, the performance and the score are all arguments
         from workloads import c08_align
-        case = c08_align.make_case(rng, size=rng.choice(["tiny", "small", "small", "large"]))
+        case = c08_align.make_case(rng, size=rng.choice(["tiny", "small", "small"]))
         ppart = c08_align.build_ppart(case.perf)
         from partitura.performance import Performance
         perf_arg = ppart if rng.random() < 0.6 else Performance(ppart, id="perf")
         score_arg = case.part if rng.random() < 0.6 else S.Score([case.part], id="sc")
         alignment = case.alignment
-        opts = dict(assume_unfolded=rng.random() < 0.7, mpq=case.perf["mpq"], ppq=case.perf["ppq"])
+        # (ids that already look unfolded, "...-1", are taken as unfolded by the id-renaming heuristic: C08's business)
+        may_unfold = not any("-1" in str(a_.get("score_id", "")) for a_ in alignment)
+        opts = dict(assume_unfolded=(rng.random() < 0.7) or not may_unfold, mpq=case.perf["mpq"], ppq=case.perf["ppq"])
 
         def sm():
             mf = partitura.save_match(alignment, perf_arg, score_arg, out=None, **opts)
